@@ -1247,6 +1247,9 @@ name_parse(u8 *packet, int length, int *idx, char *name_out, int name_out_len) {
 		}
 		if (cp + label_len >= end) return -1;
 		if (j + label_len > length) return -1;
+		/* A label with an embedded NUL cannot be represented in the
+		 * C string handed to callers; it would silently truncate the name. */
+		if (memchr(packet + j, 0, label_len)) return -1;
 		memcpy(cp, packet + j, label_len);
 		cp += label_len;
 		j += label_len;
